@@ -597,7 +597,7 @@ def check_case(rec, T, cell, sval, args, what):
         rec.outcome('not consumed')
         return
     for k, v in c.ctor_map.items():
-        rec.notes.setdefault('ctor_markers', {}).setdefault(k, sorted(v)[0])
+        rec.notes[f'ctor-marker:{k}'] = sorted(v)[0]
     rec.outcome('ok')
 
 
@@ -789,6 +789,53 @@ def shard_mainnet(rec):
     if c.problems:
         rec.violation(f'mainnet:field:{strip_idx(c.problems[0].split(":")[0])}', f'bundled main-net block: {c.problems[0]} (+{len(c.problems) - 1} more)', 'shard_mainnet', {})
     rec.sample({'mainnet_block': 'seq_no ' + str(sval['info']['seq_no']), 'checked': 'all mapped fields of Block.deserialize vs the schema decode'})
+
+
+def case_ctor_markers(rec, T):
+    """replayable form of the constructor-marker rule (see finalize): the base value of every root constructor of T"""
+    S = schema()
+    md = MAX_DICT[rec.tier]
+    rec.case('ctor-markers')
+    roots = root_ctors(S, T)
+    seen = {}
+    for ri in range(len(roots)):
+        forced = {0: ri} if len(roots) > 1 else {}
+        for plan, ch, res in explore(lambda ch: gen_case(S, T, ch, rec.seed, md), 0, False, forced, md, 0, 1, 'all'):
+            if isinstance(res, Exception):
+                continue
+            v, cell = res
+            back = S.decode(T, RTLB.Slice(cell))
+            try:
+                obj = lib_class(T).deserialize(cell_to_lib(cell, {}).begin_parse())
+            except Exception:
+                continue
+            name, m = ctor_of(back), repr((type(obj).__name__, getattr(obj, 'type_', None)))
+            if getattr(obj, 'type_', None) is None:
+                continue
+            if m in seen and seen[m] != name:
+                rec.violation(f'{T}:ctor-marker:{name}', f'{T}: the constructors {seen[m]} and {name} are both returned as {m}: the parsed object does not say which one was read',
+                              'case_ctor_markers', {'T': T})
+            seen.setdefault(m, name)
+
+
+def finalize(merged):
+    """the parsed object tells the constructors of one type apart: two different constructors of a type are never returned with the same
+    (class, type_) marker (e.g. msg_export_deq_short parsed as 'msg_export_deq')"""
+    out = []
+    S = schema()
+    notes = merged['notes']
+    for T, decls in S.types.items():
+        seen = {}
+        for d in decls:
+            name = d.get('name') or d.get('ctor')
+            m = notes.get(f'ctor-marker:{name}')
+            if not m or m.endswith('None)') or not m.startswith('('):
+                continue          # no type_ marker on this class (constructors told apart by other means, compared field by field)
+            if m in seen and seen[m] != name:
+                out.append({'key': f'{T}:ctor-marker:{name}', 'msg': f'{T}: the constructors {seen[m]} and {name} are both returned as {m}: the parsed object does not say which one was read',
+                            'replay': {'fn': 'case_ctor_markers', 'args': {'T': T}}})
+            seen.setdefault(m, name)
+    return out
 
 
 def selftest():
